@@ -31,6 +31,16 @@ def arith_sig(E):
     if V.name in ('fixed', 'guarded', 'integer'): d['precision'] = V.precision
     return d
 
+def kf_out_of_range(E, a, sig):
+    """sig extended by kf_zero_before / kf_above_one_before when an elected candidate's keep factor is <= 0 / > 1
+       in this snapshot (the root findings K1/K5 of C08); the flags stay set for the rest of the count"""
+    for c in a['cstate'].values():
+        if c['state'] == 'elected' and c.get('kf') is not None:
+            k = fv(E, c['kf'])
+            if k <= 0 and not sig.get('kf_zero_before'): sig = dict(sig, kf_zero_before=True)
+            if k > 1 and not sig.get('kf_above_one_before'): sig = dict(sig, kf_above_one_before=True)
+    return sig
+
 def trace_stats(E):
     acts = E.erecord['actions']
     return dict(rule=rule_name(E), arithmetic=E.V.name, ncand=len(E.C), nballots=E.nBallots, seats=E.nSeats,
@@ -96,6 +106,7 @@ def c02(E, blt, opts, r):
     for a in snaps(E):
         i += 1
         if is_surplus_transfer(a): t += 1
+        if rule in MEEKS: sig = kf_out_of_range(E, a, sig)
         for cid, c in a['cstate'].items():
             if c['state'] != 'withdrawn' and fv(E, c['vote']) < 0:
                 out.append(V_('c02-negative', "negative tally %s for %d at action %r" % (c['vote'], cid, a['msg']), **sig))
@@ -304,7 +315,9 @@ def c07(E, blt, opts, r):
                             out.append(V_('c07-not-lowest', "excluded %d with quotient %s is not lowest at %r" % (cid, pc['quotient'], msg), **sig))
                     elif rule in MEEKS:
                         lowest = min(fv(E, base[o]['vote']) for o in hop)
-                        if fv(E, pc['vote']) > lowest + fv(E, a['surplus']) and not (pc['vote'] <= V.min([base[o]['vote'] for o in hop]) + a['surplus']):
+                        # a total surplus rounded below zero ties nobody: the lowest candidates themselves are eligible
+                        sp = a['surplus'] if fv(E, a['surplus']) > 0 else V(0)
+                        if fv(E, pc['vote']) > lowest + fv(E, sp) and not (pc['vote'] <= V.min([base[o]['vote'] for o in hop]) + sp):
                             out.append(V_('c07-not-lowest', "excluded %d with %s is not within the surplus %s of the lowest %s at %r" % (cid, pc['vote'], a['surplus'], lowest, msg), **sig))
                     else:
                         if any(base[o]['vote'] < pc['vote'] for o in hop if o != cid):
@@ -315,7 +328,8 @@ def c07(E, blt, opts, r):
                     elif rule == 'qpq':
                         tied = [o for o in hop if base[o]['quotient'] == pc['quotient']]
                     else:
-                        tied = [o for o in hop if (V.min([base[x]['vote'] for x in hop]) + a['surplus']) >= base[o]['vote']]
+                        vm = V.min([base[x]['vote'] for x in hop])
+                        tied = [o for o in hop if (vm + a['surplus']) >= base[o]['vote']] or [o for o in hop if base[o]['vote'] == vm]
                     if len(tied) > 1 and prev['tag'] != 'tie':
                         out.append(V_('c07-unlogged-tie', "exclusion %r chose among %d tied candidates without a tie action" % (msg, len(tied)), **sig))
         if prev is not None and is_surplus_transfer(a) and rule in ('wigm', 'wigm-prf', 'wigm-prf-batch', 'scotland', 'mpls'):
@@ -390,6 +404,7 @@ def c08(E, blt, opts, r):
         claimed = (a['tag'] == 'iterate' and rule in ('meek', 'warren')) or a['tag'] == 'end' or \
                   (rule == 'meek-prf' and a['tag'] in ('begin', 'elect', 'tie', 'defeat') and not a['msg'].startswith(('Defeat remaining', 'Elect remaining')))
         if claimed:
+            sig = kf_out_of_range(E, a, sig)
             tot = a['votes'] + a['residual']
             if fv(E, tot) != n:
                 out.append(V_('c08-total', "votes %s + residual %s != %d ballots at %r" % (a['votes'], a['residual'], n, a['msg']), **sig))
@@ -447,7 +462,10 @@ def c09(E, blt, opts, r):
         ne = len([1 for c in cs.values() if c['state'] == 'elected'])
         nh = len([1 for cid, c in cs.items() if c['state'] == 'hopeful' and not (rule == 'mpls' and cid in E.electionProfile.undeclared)])
         if ne > E.nSeats:
-            out.append(V_('c09-over', "%d elected for %d seats at %r" % (ne, E.nSeats, a['msg']), **sig))
+            sg = sig
+            if rule in MEEKS and a.get('quota') is not None and any(c['state'] == 'elected' and fv(E, c['vote']) < fv(E, a['quota']) for c in cs.values()):
+                sg = dict(sig, elected_below_quota=True)    # an elected candidate no longer holds the quota (finding K13)
+            out.append(V_('c09-over', "%d elected for %d seats at %r" % (ne, E.nSeats, a['msg']), **sg))
         if ne + nh < need:
             out.append(V_('c09-under', "%d elected + %d continuing < %d fillable seats at %r" % (ne, nh, need, a['msg']), **sig))
         if prev is not None:
@@ -613,8 +631,13 @@ def c10(E, blt, opts, r):
     if use_nick: toks.append('[nick %s]' % ' '.join(nicks))
     tie = sorted(p.tieOrder, key=lambda c: p.tieOrder[c])
     toks.append('[tie %s]' % ' '.join(ref(c) for c in tie))
-    for w in sorted(p.withdrawn):
+    wds = sorted(p.withdrawn)
+    k = rng.randint(0, len(wds))
+    for w in wds[:k]:
         toks.append('-%d' % w)
+    if wds[k:]:
+        if rng.random() < 0.5: toks.append('[withdrawn %s]' % ' '.join(ref(c) for c in wds[k:]))
+        else: toks.extend('[withdrawn %s]' % ref(c) for c in wds[k:])
     if p.undeclared: toks.append('[undeclared %s]' % ' '.join(ref(c) for c in sorted(p.undeclared)))
     if p.options: toks.append('[droop %s]' % ' '.join(p.options))
     for m, rk in new:
@@ -622,10 +645,12 @@ def c10(E, blt, opts, r):
         for rank in rk:
             toks.append('='.join(ref(c) for c in rank))
         toks.append('0')
-        if rng.random() < 0.3: toks.append('# a comment 1 2 3\n')
-        if rng.random() < 0.2: toks.append('/* nested /* comment */ 0 */')
+        if rng.random() < 0.3: toks.append(rng.choice(['# a comment 1 2 3\n', '# "quoted 0 in a line comment\n', '#\n']))
+        if rng.random() < 0.25: toks.append(rng.choice(COMMENTS))
     toks.append('0')
-    for c in range(1, n + 1): toks.append('"%s"' % p.candidateName[c])
+    for c in range(1, n + 1):
+        toks.append('"%s"' % p.candidateName[c])
+        if rng.random() < 0.15: toks.append(rng.choice(COMMENTS))
     toks.append('"%s"' % p.title)
     if p.source: toks.append('"%s"' % p.source)
     if p.comment: toks.append('"%s"' % p.comment)
@@ -653,6 +678,9 @@ def c10(E, blt, opts, r):
                           (nm, cd.first_diff(x, y), blt2), **sig))
             break
     return out
+
+COMMENTS = ['/* nested /* comment */ 0 */', '/* printed as "Ally" on the paper */', '/* "two words" 7 0 */',
+            '/* "open quote only */', '/* x" 3 */', '/**/', '/* # not a line comment */']
 
 def json_key(rk):
     return tuple(tuple(x) for x in rk)
@@ -704,11 +732,18 @@ def c11(E, blt, opts, r):
             out.append(V_('c11-renumbering', "final tallies by name change under renumbering %s: %s vs %s" % (perm, t1, t2), **arith_sig(E)))
     elif r2['status'] != 'timeout':
         out.append(V_('c11-renumbering', "renumbered election ends with status %s" % r2['status'], **arith_sig(E)))
-    # (2) withdrawn == deleted
-    if p.withdrawn:
-        keep = [c for c in range(1, n + 1) if c not in p.withdrawn]
+    # (2) withdrawn == deleted; the withdrawals are read off the file text (harness files spell them "-n" or
+    #     "[withdrawn n ...]" with numbers, no comments), not taken from the parsed profile
+    import re
+    head = blt.split('"')[0]
+    marked = set(int(x) for x in re.findall(r'(?<![\w=])-(\d+)', head))
+    for grp in re.findall(r'\[withdrawn([^\]]*)\]', head):
+        marked |= set(int(x) for x in grp.split() if x.isdigit())
+    marked = set(c for c in marked if 1 <= c <= n) | set(p.withdrawn)
+    if marked:
+        keep = [c for c in range(1, n + 1) if c not in marked]
         perm2 = {c: i + 1 for i, c in enumerate(keep)}
-        blt3 = build(perm2, drop=set(p.withdrawn))
+        blt3 = build(perm2, drop=marked)
         r3 = cd.impl_count(blt3, opts, timeout=20, want_E=True)
         if r3['status'] == 'ok':
             def byname(Ex):
@@ -726,7 +761,7 @@ def c11(E, blt, opts, r):
             if x != y:
                 k = next((i for i, (u, v) in enumerate(zip(x, y)) if u != v), min(len(x), len(y)))
                 out.append(V_('c11-withdrawn', "withdrawing %s is not the same as deleting them: first difference at action %d: %r vs %r" %
-                              (sorted(p.withdrawn), k, x[k] if k < len(x) else None, y[k] if k < len(y) else None), **arith_sig(E)))
+                              (sorted(marked), k, x[k] if k < len(x) else None, y[k] if k < len(y) else None), **arith_sig(E)))
         elif r3['status'] != 'timeout':
             out.append(V_('c11-withdrawn', "election with withdrawn candidates deleted ends with status %s" % r3['status'], **arith_sig(E)))
     return out
